@@ -17,6 +17,14 @@ Oracles (own, no wannierberri code):
    high-symmetry families (sc, fcc, bcc, tetragonal, orthorhombic, hexagonal, rhombohedral) with step-length ratio
    <= 2 (and cell-edge ratio <= 2) *when my own shell solver finds a complete stencil among the shells that the code
    itself enumerates*.
+
+Genuine defects found with this check (fixes in scratch_reports/C22_parallel_shell.diff, C22_search_window.diff):
+ * bucket no-bvectors-rhombohedral / -hexagonal: find_bk_vectors passes integer mesh coordinates to is_parallel_shell,
+   which moreover treats "lies in the span of an earlier shell" as "parallel"; a first shell that spans R^3 but is not
+   complete (every rhombohedral lattice with 75 < alpha < 105 deg, even on a uniform mesh) makes all later shells be
+   skipped -> RuntimeError although two whole shells form a complete stencil;
+ * bucket partial-shell: shells are built only from vectors inside the box |g_i| <= 2 N_i; mesh vectors of the same
+   length outside the box are silently missing from a chosen shell (commensurate cell edges, e.g. tetragonal c/a = 3).
 """
 import itertools
 import numpy as np
@@ -28,9 +36,9 @@ from vlib import wbsys
 
 PROPERTY_ID = "C22"
 RULE = ("reciprocal lattice of a lattice from 11 families (+rotation; cell edges generic or, in 1/3 of the cases, "
-        "commensurate values 0.75..3 that create accidental shell degeneracies), Monkhorst-Pack mesh in [1..6]^3 with <= 48 points, "
-        "k-points listed in a drawn permutation, exact or rounded to 6/8/10 decimals; non-trivial = at least two shells chosen or a non-orthogonal lattice; "
-        "distinctness by the full case")
+        "commensurate values 0.75..3 that create accidental shell degeneracies), Monkhorst-Pack mesh in [1..6]^3 with "
+        "<= 48 points (1/3 uniform n x n x n), k-points listed in a drawn permutation, exact or rounded to 6/8/10 "
+        "decimals; non-trivial = at least two shells chosen or a non-orthogonal lattice; distinctness by the full case")
 ASSUMPTIONS = ["default tolerances of from_kpoints: kmesh_tol=1e-7, bk_complete_tol=1e-5, search_supercell=2",
                "k-points in reduced coordinates inside [0,1) as documented",
                "a shell = all mesh vectors of one length; lengths within 1e-9 relative are 'equal', lengths that differ "
@@ -49,7 +57,7 @@ SAME = 1e-9
 @st.composite
 def case_st(draw):
     lat = draw(wbsys.lattice_st())
-    if draw(st.integers(0, 2)) == 0:  # commensurate cell edges: accidental degeneracies between shells of different directions
+    if draw(st.integers(0, 2)) == 0:  # commensurate cell edges: accidental degeneracies between different directions
         for key in ("a", "b", "c"):
             lat[key] = draw(st.sampled_from([1.0, 3.0, 0.75, 2.0, 3.0, 1.5, 1.0, 2.5]))
         lat["commensurate"] = True
@@ -190,25 +198,25 @@ def check(case):
     if chosen.sum() != NNB:
         raise RuntimeError("harness: enumeration box does not contain all chosen b-vectors")
     shell_lengths = []
-    for l in np.sort(blen):
-        if not shell_lengths or l - shell_lengths[-1] > SAME * (1 + l):
-            shell_lengths.append(l)
+    for ln_b in np.sort(blen):
+        if not shell_lengths or ln_b - shell_lengths[-1] > SAME * (1 + ln_b):
+            shell_lengths.append(ln_b)
     tie = False
-    for l in shell_lengths:
-        d = np.abs(gl - l)
-        same = d <= SAME * (1 + l)
+    for ln_s in shell_lengths:
+        d = np.abs(gl - ln_s)
+        same = d <= SAME * (1 + ln_s)
         lost = same & ~chosen
         if lost.any():
             v = g[lost][0]
             outside = bool(np.any(np.abs(v) > 2 * mp))
             raise Violation("partial-shell",
-                            f"mesh vector {v.tolist()} has the length {l:.9f} of a chosen shell but is not chosen"
+                            f"mesh vector {v.tolist()} has the length {ln_s:.9f} of a chosen shell but is not chosen"
                             + (" (it lies outside the +-2N search range)" if outside else ""))
         if np.any(~same & (d <= 10 * KMESH_TOL) & ~chosen):
             tie = True
         ws = wk[[idx[tuple(int(x) for x in v)] for v in g[same]]]
         if np.ptp(ws) > 1e-12 * wscale:
-            raise Violation("shell-weights-unequal", f"shell |b|={l:.6f} carries weights {sorted(set(ws.tolist()))}")
+            raise Violation("shell-weights-unequal", f"shell |b|={ln_s:.6f} carries weights {sorted(set(ws.tolist()))}")
     if tie:
         raise Inconclusive("mesh vector within kmesh_tol of a chosen shell length (tie)")
     # neighbours and G
